@@ -324,3 +324,134 @@ pub fn judge(step: &Step, got: &Got) -> Option<String> {
     }
     None
 }
+
+/// Recorder of VM-level events (hook `steel::verif::install_vm`, cfg(steel_verif)) as NDJSON for
+/// trace validation against spec/Trace_Vm.tla.  Enabled by `VERIF_VMTRACE=<path>`; at most
+/// `VERIF_VMTRACE_CAP` events are recorded per case (a prefix of a behaviour is a behaviour).
+/// Only the thread that began the case is recorded.
+pub mod vmrec {
+    use std::collections::HashMap;
+    use std::io::Write;
+    use std::sync::atomic::{AtomicBool, Ordering};
+    use std::sync::Mutex;
+    use steel::verif::VmEvent;
+
+    static ACTIVE: AtomicBool = AtomicBool::new(false);
+    struct Rec {
+        out: Option<std::io::BufWriter<std::fs::File>>,
+        codes: HashMap<usize, u32>,
+        marks: HashMap<usize, u32>,
+        count: usize,
+        cap: usize,
+        owner: Option<std::thread::ThreadId>,
+        truncated: bool,
+    }
+    static REC: Mutex<Option<Rec>> = Mutex::new(None);
+
+    pub fn init_from_env() -> bool {
+        let Ok(path) = std::env::var("VERIF_VMTRACE") else { return false };
+        let cap = std::env::var("VERIF_VMTRACE_CAP").ok().and_then(|x| x.parse().ok()).unwrap_or(3000);
+        let f = std::fs::OpenOptions::new().create(true).append(true).open(path).expect("vm trace file");
+        *REC.lock().unwrap() = Some(Rec { out: Some(std::io::BufWriter::new(f)), codes: HashMap::new(), marks: HashMap::new(),
+                                          count: 0, cap, owner: None, truncated: false });
+        steel::verif::install_vm(Some(hook));
+        true
+    }
+
+    pub fn begin_case(id: &str) {
+        let mut g = REC.lock().unwrap();
+        if let Some(r) = g.as_mut() {
+            r.codes.clear();
+            r.marks.clear();
+            r.count = 0;
+            r.truncated = false;
+            r.owner = Some(std::thread::current().id());
+            if let Some(o) = r.out.as_mut() {
+                let _ = writeln!(o, "{}", serde_json::json!({"k": "case", "id": id}));
+            }
+            ACTIVE.store(true, Ordering::SeqCst);
+        }
+    }
+
+    /// a new top-level evaluation unit of the same case begins
+    pub fn mark_unit() {
+        let mut g = REC.lock().unwrap();
+        if let Some(r) = g.as_mut() {
+            if let Some(o) = r.out.as_mut() {
+                let _ = writeln!(o, "{}", serde_json::json!({"k": "unit"}));
+            }
+        }
+    }
+
+    pub fn end_case() {
+        ACTIVE.store(false, Ordering::SeqCst);
+        let mut g = REC.lock().unwrap();
+        if let Some(r) = g.as_mut() {
+            if let Some(o) = r.out.as_mut() {
+                let _ = o.flush();
+            }
+        }
+    }
+
+    fn opname(x: Option<(steel::core::opcode::OpCode, usize)>) -> (String, usize) {
+        match x {
+            Some((o, p)) => (format!("{:?}", o), p),
+            None => ("END".to_string(), 0),
+        }
+    }
+
+    fn kind_name(k: u32) -> &'static str {
+        match k {
+            steel::verif::VM_STEP => "step",
+            steel::verif::VM_ENTER => "enter",
+            steel::verif::VM_EXIT_OK => "exit_ok",
+            steel::verif::VM_EXIT_ERR => "exit_err",
+            steel::verif::VM_HANDLER => "handler",
+            steel::verif::VM_LEAVE => "leave",
+            steel::verif::VM_CAPTURE => "capture",
+            steel::verif::VM_INVOKE => "invoke",
+            steel::verif::VM_HANDLER_FRAME => "hframe",
+            _ => "other",
+        }
+    }
+
+    fn hook(ev: &VmEvent) {
+        if !ACTIVE.load(Ordering::Relaxed) {
+            return;
+        }
+        let mut g = REC.lock().unwrap();
+        let Some(r) = g.as_mut() else { return };
+        if r.owner != Some(std::thread::current().id()) {
+            return;
+        }
+        if r.count >= r.cap {
+            if !r.truncated {
+                r.truncated = true;
+                if let Some(o) = r.out.as_mut() {
+                    let _ = writeln!(o, "{}", serde_json::json!({"k": "trunc"}));
+                }
+            }
+            return;
+        }
+        r.count += 1;
+        let nc = r.codes.len() as u32 + 1;
+        let c = *r.codes.entry(ev.code).or_insert(nc);
+        let a = if ev.kind == steel::verif::VM_CAPTURE || ev.kind == steel::verif::VM_INVOKE {
+            let nm = r.marks.len() as u32 + 1;
+            *r.marks.entry(ev.aux).or_insert(nm)
+        } else {
+            ev.aux as u32
+        };
+        let (op, pl) = opname(ev.op);
+        let (n1, n1p) = opname(ev.next[0]);
+        let (n2, n2p) = opname(ev.next[1]);
+        let (n3, _) = opname(ev.next[2]);
+        if let Some(o) = r.out.as_mut() {
+            let _ = writeln!(
+                o,
+                "{{\"k\":\"{}\",\"a\":{},\"d\":{},\"op\":\"{}\",\"pl\":{},\"n1\":\"{}\",\"n1p\":{},\"n2\":\"{}\",\"n2p\":{},\"n3\":\"{}\",\"ip\":{},\"c\":{},\"sl\":{},\"fl\":{},\"sp\":{},\"pc\":{}}}",
+                kind_name(ev.kind), a, ev.depth, op, pl, n1, n1p, n2, n2p, n3, ev.ip, c, ev.stack_len, ev.frames_len, ev.sp, ev.pop_count
+            );
+        }
+    }
+}
